@@ -34,6 +34,8 @@ pub struct C15 {
     pub knob_mid: Option<u32>,
     /// call the reader()/reader_mut() accessors (without consuming anything) whenever no read is in flight
     pub touch: bool,
+    /// the source overwrites the unfilled part of the buffer it is given
+    pub scribble: bool,
     pub src: Vec<Step>,
     pub caller: Vec<Decide>,
 }
@@ -109,6 +111,7 @@ impl<'s> FamVisitor for Runner<'s> {
         let n = payloads.len() as u64;
         let budget = s.src.len() as u64 + s.caller.len() as u64 + 8 * (n + 1) + 32;
         let core = SrcCore::new(stream, s.src.clone(), layout, budget, self.obs.clone());
+        core.borrow_mut().scribble = s.scribble;
         let mut reader = AsyncReader::with_buffer(SimAsyncSource(core.clone()), garbage(s.init_buf as usize));
         if s.init_buf > 0 {
             self.obs.borrow_mut().fault(fk::garbage_buffer);
@@ -367,6 +370,7 @@ impl Scenario for C15 {
             .set("rewrap_at", self.rewrap_at)
             .set("knob_mid", self.knob_mid)
             .set("touch", self.touch)
+            .set("scribble", self.scribble)
             .set("src", lane_to_json(&self.src))
             .set("caller", decides_to_json(&self.caller))
     }
@@ -382,6 +386,7 @@ impl Scenario for C15 {
             rewrap_at: j.get("rewrap_at").and_then(|c| c.as_u64()).map(|c| c as u32),
             knob_mid: j.get("knob_mid").and_then(|c| c.as_u64()).map(|c| c as u32),
             touch: j.get("touch").and_then(|c| c.as_bool()).unwrap_or(false),
+            scribble: j.get("scribble").and_then(|c| c.as_bool()).unwrap_or(false),
             src: lane_from_json(j.get("src"))?,
             caller: decides_from_json(j.get("caller"))?,
         })
@@ -441,6 +446,9 @@ impl Scenario for C15 {
         if self.touch {
             out.push(C15 { touch: false, ..self.clone() });
         }
+        if self.scribble {
+            out.push(C15 { scribble: false, ..self.clone() });
+        }
         if self.family != Ty::Str && self.family != Ty::U64 {
             // simpler payload type, same shapes of frames
             for t in [Ty::U64, Ty::Str] {
@@ -494,7 +502,7 @@ fn stream_len(values: &[ValSpec]) -> usize {
 }
 
 fn base(family: Ty, values: Vec<ValSpec>) -> C15 {
-    C15 { family, values, cut: None, init_buf: 0, max_len_mode: 0, use_ctx: false, rewrap_at: None, knob_mid: None, touch: false, src: vec![], caller: vec![] }
+    C15 { family, values, cut: None, init_buf: 0, max_len_mode: 0, use_ctx: false, rewrap_at: None, knob_mid: None, touch: false, scribble: false, src: vec![], caller: vec![] }
 }
 
 fn generate_single(r: &mut Rng, tier: Tier) -> C15 {
@@ -582,6 +590,7 @@ fn generate_single(r: &mut Rng, tier: Tier) -> C15 {
         rewrap_at: if r.chance(1, 6) { Some(r.below(nframes as u64 + 1) as u32) } else { None },
         knob_mid: if r.chance(1, 4) { Some(r.below(3) as u32) } else { None },
         touch: r.chance(1, 3),
+        scribble: r.chance(1, 3),
         src,
         caller,
     }
